@@ -81,15 +81,30 @@ pub struct Qp {
     pub var_names: Vec<(usize, String)>,
 }
 
-fn gen_entries(t: &mut Tape, n: usize, diagonal_only: bool, max: usize) -> Vec<(usize, usize, V)> {
+/// all entries of one matrix scaled by 2^exp (exact): a badly scaled but perfectly legal file
+fn scale_v(v: V, exp: i32) -> V {
+    if exp == 0 {
+        return v;
+    }
+    let s = (2.0f64).powi(exp);
+    let value = v.value * q(s);
+    let x = q_to_f64(&value);
+    V { text: format!("{:e}", x), value }
+}
+
+fn gen_entries(t: &mut Tape, n: usize, diagonal_only: bool, max: usize, ctx: &mut Ctx) -> Vec<(usize, usize, V)> {
+    let exp = [0i32, -60, 40][t.weighted(&[12, 1, 1])];
     let k = t.choice(max + 1);
+    if exp == -60 && k > 0 {
+        ctx.label("matrix-entries-below-epsilon");
+    }
     let mut seen = std::collections::BTreeSet::new();
     let mut out = vec![];
     for _ in 0..k {
         let i = t.choice(n);
         let j = if diagonal_only || t.p(90) { i } else { t.choice(i + 1) };
         if seen.insert((i, j)) {
-            out.push((i, j, dy(t, true)));
+            out.push((i, j, scale_v(dy(t, true), exp)));
         }
     }
     out
@@ -122,8 +137,8 @@ pub fn gen_qp(t: &mut Tape, code: usize, ctx: &mut Ctx) -> Qp {
     let m = if matches!(ckind, 'N' | 'B') { 0 } else { t.choice(5) };
     let q0 = match okind {
         'L' => vec![],
-        'D' => gen_entries(t, n, true, 4),
-        _ => gen_entries(t, n, false, 6),
+        'D' => gen_entries(t, n, true, 4, ctx),
+        _ => gen_entries(t, n, false, 6, ctx),
     };
     let b0_default = if t.p(100) {
         ctx.label("default-b0!=0");
@@ -151,8 +166,8 @@ pub fn gen_qp(t: &mut Tape, code: usize, ctx: &mut Ctx) -> Qp {
     for ci in 0..m {
         let q = match ckind {
             'L' => vec![],
-            'D' => gen_entries(t, n, true, 3),
-            _ => gen_entries(t, n, false, 4),
+            'D' => gen_entries(t, n, true, 3, ctx),
+            _ => gen_entries(t, n, false, 4, ctx),
         };
         let mut b = vec![];
         let mut seen = std::collections::BTreeSet::new();
